@@ -16,13 +16,16 @@ GEOM = "geometry.geometry"
 ALL_ATTR = ATTR_MODS + [GLOB, INTERP]
 
 EXPLANATION = (
-    "Static conformance of the per-element quantity functions: return discipline of the annotated functions, agreement "
-    "of the persistent / dense / sparse constructors of each attribute, index-kind typing of every subscript and "
-    "connectivity call (an attribute living on container K is only indexed by ids of K), triangular gates in front of "
-    "corner arithmetic, corner quantities centred at the corner's vertex, weight / normaliser pairing of every "
-    "interpolation mode, divisor = number of summed terms for means and barycentres, and polynomial identities of the "
-    "closed-form primitives of geometry.py (cross product, determinants, aspect ratio, quad area). Structural necessary "
-    "conditions only; no numerical value is computed.")
+    "Static conformance of the per-element quantity functions, read on a *view* of each function (private helpers inlined, local "
+    "aliases propagated, loops over literal tuples unrolled, conditions in normal form) so that the spelling of the code does not matter: "
+    "return discipline of the annotated functions, agreement of the persistent / dense / sparse constructors of each attribute, index-kind "
+    "typing of every subscript and connectivity call (an attribute living on container K is only indexed by ids of K), triangular gates "
+    "in front of corner arithmetic, corner quantities centred at the corner's vertex (sequence forms: which element of the face each "
+    "argument is, whatever the iteration idiom), weight / normaliser pairing of every interpolation mode (canonical summation "
+    "signatures), divisor = number of summed terms for means and barycentres, affine weights / translation invariance / physical "
+    "dimension by abstract interpretation, border handling of the angle defects (truth table), and polynomial identities of the "
+    "closed-form primitives of geometry.py (symbolic return expressions). Structural necessary conditions only; no numerical value is "
+    "computed. A shape the rules cannot read is reported as undecided (exit 2), never as a violation.")
 
 RULES = {
     "C07-R1": "a function of attributes/*.py annotated with a non-None return type returns a value on every normal exit",
@@ -908,6 +911,43 @@ def _sum_form(v):
     return None
 
 
+def _effective(st, mode, wname, b):
+    """the statement as it reads under weight == mode: conditional expressions on the weight are decided, a stored local holding a
+    sum(..) is replaced by that sum (`total = sum(..); out[k] = total / n if weight == "uniform" else total`)"""
+    if not (isinstance(st, ast.Assign) and len(st.targets) == 1 and isinstance(st.targets[0], ast.Subscript)):
+        return st
+    changed = [False]
+
+    class T(ast.NodeTransformer):
+        def visit_IfExp(self, n):
+            t, pol = au.strip_not(n.test)
+            r = _mode_holds(t, pol, mode, wname)
+            if r in (True, False):
+                changed[0] = True
+                return self.visit(n.body if r else n.orelse)
+            return self.generic_visit(n)
+
+        def visit_Name(self, n):
+            if isinstance(n.ctx, ast.Load):
+                d = b.reaching(n.id, st)
+                if d is not None and _sum_over(d) not in (None,):
+                    changed[0] = True
+                    return sym.clone(d)
+            return n
+    v = T().visit(sym.clone(st.value))
+    if not changed[0]:
+        return st
+    new = ast.Assign(targets=st.targets, value=v)
+    ast.copy_location(new, st)
+    ast.fix_missing_locations(new)
+    new._parent = au.parent(st)
+    for n in ast.walk(v):
+        for c in ast.iter_child_nodes(n):
+            c._parent = n
+    v._parent = new
+    return new
+
+
 def _sub_of(t):
     return isinstance(t, ast.Subscript) and isinstance(t.value, ast.Name) and not isinstance(t.slice, ast.Slice)
 
@@ -1058,6 +1098,7 @@ def w1_interpolation(ctx):
                 on, foreign = active(st)
                 if not on:
                     continue
+                st = _effective(st, mode, wname, C.b)
                 a, d = _acc(st), _div(st)
                 tgt_out = any(_sub_of(t) and t.value.id == out for t in au.assign_targets(st))
                 if tgt_out and foreign:
@@ -2213,7 +2254,16 @@ def b1_angle_defect_border(ctx):
             return None
         return sym.to_poly(e, atom_of=atom, opaque=True)
     # the accumulator and its default
-    subs = [s for s in au.stmts(V.body) if au.increment(s) is not None and au.increment(s)[1] == -1 and isinstance((s.target if isinstance(s, ast.AugAssign) else s.targets[0]), ast.Subscript)]
+    incs_all = [s for s in au.stmts(V.body) if au.increment(s) is not None and isinstance((s.target if isinstance(s, ast.AugAssign) else s.targets[0]), ast.Subscript)
+                and any(isinstance(a, ast.For) and he_seq.Forms(V).seq(a.iter, a) is not None
+                        and (he_seq.Forms(V).seq(a.iter, a).base or "").split(".")[-1] in ("face_corners", "id_corners")
+                        for a in au.ancestors(s))]
+    subs = [s for s in incs_all if au.increment(s)[1] == -1]
+    added = [s for s in incs_all if au.increment(s)[1] == 1]
+    if added and not subs and len(added) == 1:
+        ctx.fail("C07-B1", ctx.site(mod, fn, added[0]), "angle_defects: the corner angles are added to the defect of their vertex instead of subtracted",
+                 "the angle defect is 2*pi (pi on the border) MINUS the sum of the angles around the vertex")
+        return
     if len(subs) != 1 or "zero_border" not in au.params(fn):
         ctx.undecided("C07-B1", site, "angle_defects: subtraction of the corner angles from the per-vertex defect not recognised", "")
         return
@@ -2478,3 +2528,22 @@ def p1_points(ctx):
             else:
                 ctx.check(ok, "C07-P1", ctx.site(modname, fn, node), f"{q}: `{au.src(val)}` is not an affine combination of vertex positions: {text}",
                           P1_WHAT, note=f"{q}: position with {text}")
+
+
+
+# ----------------------------------------------------------------------- generic families (msa/rules/generic.py)
+_run_specific = run
+
+
+def run(ctx):
+    _run_specific(ctx)
+    from ..rules import generic
+    generic.apply(ctx, "C07", stale_modules=())
+
+
+def _generic_rule_texts():
+    from ..rules import generic
+    return generic.rule_texts("C07", stale=False)
+
+
+RULES.update(_generic_rule_texts())
